@@ -39,6 +39,9 @@ type pubParams struct {
 	// SlowLink: every packet takes longer than one PauseTimeout to go out,
 	// with progress all along (no fault)
 	SlowLink bool
+	// PlainNoise: a goroutine keeps issuing requests that take no sequence
+	// lock (Publish at most once, Ping) all through the publisher phase
+	PlainNoise bool
 }
 
 func sizeOf(c *run.Ctx, bigP float64) int {
@@ -185,6 +188,23 @@ func runPubWorkload(c *run.Ctx, pp pubParams) (*Episode, *pubAnalysis, []*sim.Pu
 			})
 		}
 	}
+	var noiseStop atomic.Bool
+	noiseDone := make(chan struct{})
+	if pp.PlainNoise {
+		go func() {
+			defer close(noiseDone)
+			for i := 0; !noiseStop.Load(); i++ {
+				if i%3 == 2 {
+					ep.D.C.Ping(nil)
+				} else {
+					ep.D.C.Publish(nil, []byte("noise"), "noise/0")
+				}
+				time.Sleep(200 * time.Microsecond)
+			}
+		}()
+	} else {
+		close(noiseDone)
+	}
 	done := make(chan struct{}, publishers)
 	for g := 0; g < publishers; g++ {
 		go func(g int) {
@@ -206,6 +226,13 @@ func runPubWorkload(c *run.Ctx, pp pubParams) (*Episode, *pubAnalysis, []*sim.Pu
 	}
 	for g := 0; g < publishers; g++ {
 		<-done
+	}
+	noiseStop.Store(true)
+	select {
+	case <-noiseDone:
+	case <-time.After(sim.StepTimeout):
+		// (a request waiting for a connection that never comes is C10's and
+		// C11's subject; here it only must not hold up the episode)
 	}
 
 	// closeMidPublish parks a publisher right behind its Save, closes the client
